@@ -8,6 +8,8 @@ _REPL = "            if quality > best_quality or specificity > best_specificity
 _KEY = "                values, key=lambda x: (self._specificity(x[0]), x[1]), reverse=True\n"
 _BSM = "        for client_item, quality in self:\n            if self._value_matches(match, client_item):\n                # self is sorted by specificity descending, we can exit\n                return client_item, quality\n        return None"
 
+_MAPBACK = "            return next(\n                item\n                for item in matches\n                if _locale_delim_re.split(item, 1)[0] == result\n            )"
+
 MUTANTS = [
     # ---- R17.1 ----
     {"name": "range-check-removed", "expect": "R17.1", "edits": [(H, _RANGE, "")]},
@@ -36,7 +38,7 @@ MUTANTS = [
     {"name": "language-fallback-overrides-exact", "expect": "R17.2", "edits": [(A, "        result = super().best_match(matches)\n\n        if result is not None:\n            return result\n\n        # Fall back to accepting primary tags.", "        result = super().best_match(matches)\n\n        # Fall back to accepting primary tags.")]},
     {"name": "language-last-resort-first-offer", "expect": "R17.2", "edits": [(A, "        return default\n\n\nclass CharsetAccept", "        return next(iter(matches), default)\n\n\nclass CharsetAccept")]},
     {"name": "language-tag-mapped-back-by-prefix", "expect": "R17.2", "edits": [(A, "                if _locale_delim_re.split(item, 1)[0] == result\n", "                if item.startswith(result)\n")]},
-    {"name": "language-returns-derived-tag", "expect": "R17.2", "edits": [(A, "        result = super().best_match(fallback_matches)\n", "        result = super().best_match(fallback_matches)\n\n        if result in matches:\n            return result\n")]},
+    {"name": "language-maps-back-last-offer", "expect": "R17.2", "edits": [(A, _MAPBACK, "            return [\n                item\n                for item in matches\n                if _locale_delim_re.split(item, 1)[0] == result\n            ][-1]")]},
     # ---- R17.3 ----
     {"name": "sort-key-quality-major", "expect": "R17.3", "edits": [(A, _KEY, "                values, key=lambda x: (x[1], self._specificity(x[0])), reverse=True\n")]},
     {"name": "sort-key-without-quality", "expect": "R17.3", "edits": [(A, _KEY, "                values, key=lambda x: self._specificity(x[0]), reverse=True\n")]},
@@ -119,4 +121,82 @@ TWINS += [
         "        self.provided = True\n        ordered = sorted(\n            values, reverse=True, key=lambda x: (self._specificity(x[0]), x[1])\n        )\n        super().__init__(ordered)\n")]},
     {"name": "mime-full-wildcard-early-return", "edits": [(A, '        return (\n            (item_type == "*" and item_subtype == "*")\n            or (value_type == "*" and value_subtype == "*")\n        ) or (',
         '        if item_type == "*" and item_subtype == "*":\n            return True\n\n        return (value_type == "*" and value_subtype == "*") or (')]},
+]
+
+
+# ---- refactored shapes (helper extraction, equivalent stdlib idioms, result variables) and defects seeded on top of them ----
+_SORT = "            values = sorted(\n" + _KEY + "            )\n            super().__init__(values)\n"
+_OVERLOAD = "@t.overload\ndef parse_accept_header(value: str | None) -> ds.Accept: ..."
+_QHELPER = (
+    "def _accept_quality(raw):\n    text = raw.strip()\n    if not _q_value_re.fullmatch(text):\n        return None\n"
+    "    number = float(text)\n    return number if 0 <= number <= 1 else None\n\n\n"
+)
+_PAH_HELPER = (
+    '        q = 1\n\n        if "q" in options:\n            if (given := _accept_quality(options.pop("q"))) is None:\n                continue\n\n            q = given\n'
+)
+_BASE_VM = '        return item == "*" or item.lower() == value.lower()'
+_LANG_VM = '        return item == "*" or _normalize_lang(value) == _normalize_lang(item)'
+_CHARSET_VM = '        return item == "*" or _normalize(value) == _normalize(item)'
+_MIME_SPEC = '        return tuple(x != "*" for x in _mime_split_re.split(value))'
+_MIME_TAIL = (
+    "        normalized_value = _normalize_mime(value)\n        value_type, value_subtype = normalized_value[:2]\n        value_params = sorted(normalized_value[2:])\n"
+)
+_LANG_STAGE3 = "        fallback_matches = [_locale_delim_re.split(item, 1)[0] for item in matches]\n        result = super().best_match(fallback_matches)\n"
+_LANG_FALLBACK = "        fallback = Accept(\n            [(_locale_delim_re.split(item[0], 1)[0], item[1]) for item in self]\n        )\n"
+_BSM_NEXT = "        return next(((rng, q) for rng, q in self if self._value_matches(match, rng)), None)"
+_BSM_BREAK = "        hit = None\n        for rng, q in self:\n            if self._value_matches(match, rng):\n                hit = (rng, q)\n                break\n        return hit"
+
+TWINS += [
+    {"name": "q-parsing-in-helper-conditional-return-walrus", "edits": [(H, _OVERLOAD, _QHELPER + _OVERLOAD), (H, _PAH, _PAH_HELPER)]},
+    {"name": "q-pattern-test-in-predicate-helper", "edits": [(H, _OVERLOAD, "def _q_ok(text):\n    return _q_value_re.fullmatch(text) is not None\n\n\n" + _OVERLOAD), (H, "            if _q_value_re.fullmatch(q_str) is None:\n", "            if not _q_ok(q_str):\n")]},
+    {"name": "single-match-next-over-generator", "edits": [(A, _BSM, _BSM_NEXT)]},
+    {"name": "single-match-search-loop-with-break", "edits": [(A, _BSM, _BSM_BREAK)]},
+    {"name": "quality-next-over-generator", "edits": [(A, "        for item, quality in self:\n            if self._value_matches(key, item):\n                return quality\n        return 0", "        return next((q for rng, q in self if self._value_matches(key, rng)), 0)")]},
+    {"name": "loop-one-tuple-assignment-for-choice-and-state", "edits": [(A, "                result = server_item\n                best_quality = quality\n                best_specificity = specificity\n", "                result, best_quality, best_specificity = server_item, quality, specificity\n")]},
+    {"name": "loop-state-initialised-by-tuple-assignment", "edits": [(A, "        result = default\n        best_quality: float = -1\n        best_specificity: tuple[float, ...] = (-1,)\n", "        result, best_quality, best_specificity = default, -1, (-1,)\n")]},
+    {"name": "loop-default-applied-after-the-loop", "edits": [(A, "        result = default\n        best_quality: float = -1", "        result = None\n        best_quality: float = -1"), (A, "                best_specificity = specificity\n        return result\n", "                best_specificity = specificity\n        return default if result is None else result\n")]},
+    {"name": "loop-comparison-in-private-method", "edits": [(A, _REPL, "            if self._outranks(quality, specificity, best_quality, best_specificity):\n"), (A, "    @property\n    def best(self)", "    def _outranks(self, q, s, bq, bs):\n        if q > bq:\n            return True\n        return s > bs\n\n    @property\n    def best(self)")]},
+    {"name": "init-list-sort-in-place", "edits": [(A, _SORT, "            ordered = list(values)\n            ordered.sort(key=lambda x: (self._specificity(x[0]), x[1]), reverse=True)\n            super().__init__(ordered)\n")]},
+    {"name": "init-sort-key-nested-function", "edits": [(A, _SORT, "            def rank(pair):\n                return self._specificity(pair[0]), pair[1]\n\n            super().__init__(sorted(values, key=rank, reverse=True))\n")]},
+    {"name": "base-match-result-variable", "edits": [(A, _BASE_VM, '        matched = False\n        if item == "*":\n            matched = True\n        elif item.lower() == value.lower():\n            matched = True\n        return matched')]},
+    {"name": "language-match-normalised-locals", "edits": [(A, _LANG_VM, '        if item == "*":\n            return True\n        offered = _normalize_lang(value)\n        accepted = _normalize_lang(item)\n        return offered == accepted')]},
+    {"name": "charset-match-in-module-helper", "edits": [(A, _CHARSET_VM, '        return item == "*" or _same_charset(value, item)'), (A, "class CharsetAccept(Accept):", "def _same_charset(a, b):\n    return _normalize(a) == _normalize(b)\n\n\nclass CharsetAccept(Accept):")]},
+    {"name": "mime-specificity-append-loop", "edits": [(A, _MIME_SPEC, '        out = []\n        for part in _mime_split_re.split(value):\n            out.append(part != "*")\n        return tuple(out)')]},
+    {"name": "mime-split-in-helper-returning-triple", "edits": [
+        (A, "class MIMEAccept(Accept):", "def _mime_parts(text):\n    pieces = _normalize_mime(text)\n    return pieces[0], pieces[1], sorted(pieces[2:])\n\n\nclass MIMEAccept(Accept):"),
+        (A, _MIME_TAIL, "        value_type, value_subtype, value_params = _mime_parts(value)\n"),
+        (A, "        normalized_item = _normalize_mime(item)\n        item_type, item_subtype = normalized_item[:2]\n        item_params = sorted(normalized_item[2:])\n", "        item_type, item_subtype, item_params = _mime_parts(item)\n"),
+    ]},
+    {"name": "language-map-back-search-loop", "edits": [(A, "        if result is not None:\n" + _MAPBACK + "\n\n        return default", "        if result is not None:\n            for item in matches:\n                if _locale_delim_re.split(item, 1)[0] == result:\n                    return item\n\n        return default")]},
+    {"name": "language-fallback-ranges-built-by-loop", "edits": [(A, _LANG_FALLBACK, "        primary = []\n        for tag, q in self:\n            primary.append((_locale_delim_re.split(tag, 1)[0], q))\n        fallback = Accept(primary)\n")]},
+    {"name": "language-first-offer-per-primary-tag-mapping", "edits": [(A, _LANG_STAGE3, "        by_primary = {}\n        for item in matches:\n            by_primary.setdefault(_locale_delim_re.split(item, 1)[0], item)\n        result = super().best_match(list(by_primary))\n"), (A, _MAPBACK, "            return by_primary[result]")]},
+    {"name": "language-primary-tag-helper", "edits": [(A, "[(_locale_delim_re.split(item[0], 1)[0], item[1]) for item in self]", "[(_primary_tag(item[0]), item[1]) for item in self]"), (A, "[_locale_delim_re.split(item, 1)[0] for item in matches]", "[_primary_tag(item) for item in matches]"),
+        (A, "if _locale_delim_re.split(item, 1)[0] == result", "if _primary_tag(item) == result"), (A, "class LanguageAccept(Accept):", "def _primary_tag(tag):\n    return _locale_delim_re.split(tag, 1)[0]\n\n\nclass LanguageAccept(Accept):")]},
+    # stage 3 can only yield a tag that is itself an offer when stage 1 already matched that offer: unreachable shortcut (differentially tested)
+    {"name": "language-derived-tag-shortcut-unreachable", "edits": [(A, "        result = super().best_match(fallback_matches)\n", "        result = super().best_match(fallback_matches)\n\n        if result in matches:\n            return result\n")]},
+]
+
+MUTANTS += [
+    {"name": "helper-upper-bound-dropped", "expect": "R17.1", "edits": [(H, _OVERLOAD, _QHELPER.replace("0 <= number <= 1", "0 <= number") + _OVERLOAD), (H, _PAH, _PAH_HELPER)]},
+    {"name": "helper-result-tested-for-truth-drops-zero", "expect": "R17.1", "edits": [(H, _OVERLOAD, _QHELPER + _OVERLOAD), (H, _PAH, _PAH_HELPER.replace("if (given := _accept_quality(options.pop(\"q\"))) is None:", "if not (given := _accept_quality(options.pop(\"q\"))):"))]},
+    {"name": "helper-rejected-q-falls-back-to-default", "expect": "R17.1", "edits": [(H, _OVERLOAD, _QHELPER + _OVERLOAD), (H, _PAH, '        q = 1\n\n        if "q" in options:\n            if (given := _accept_quality(options.pop("q"))) is not None:\n                q = given\n')]},
+    {"name": "helper-pattern-prefix-match", "expect": "R17.1", "edits": [(H, _OVERLOAD, _QHELPER.replace("fullmatch", "match") + _OVERLOAD), (H, _PAH, _PAH_HELPER)]},
+    {"name": "out-of-range-q-raises", "expect": "R17.1", "edits": [(H, _RANGE, "            if q < 0 or q > 1:\n                raise ValueError(q_str)\n")]},
+    {"name": "single-match-next-scans-backwards", "expect": "R17.3", "edits": [(A, _BSM, _BSM_NEXT.replace("in self if", "in reversed(self) if"))]},
+    {"name": "single-match-next-without-default", "expect": "R17.3", "edits": [(A, _BSM, _BSM_NEXT.replace(", None)", ")"))]},
+    {"name": "single-match-search-loop-last-wins", "expect": "R17.3", "edits": [(A, _BSM, _BSM_BREAK.replace("                break\n", ""))]},
+    {"name": "init-list-sort-ascending", "expect": "R17.3", "edits": [(A, _SORT, "            ordered = list(values)\n            ordered.sort(key=lambda x: (self._specificity(x[0]), x[1]))\n            super().__init__(ordered)\n")]},
+    {"name": "init-list-sorted-copy-not-stored", "expect": "R17.3", "edits": [(A, _SORT, "            ordered = list(values)\n            ordered.sort(key=lambda x: (self._specificity(x[0]), x[1]), reverse=True)\n            super().__init__(values)\n")]},
+    {"name": "tuple-assignment-forgets-best-quality", "expect": "R17.2", "edits": [(A, "                result = server_item\n                best_quality = quality\n                best_specificity = specificity\n", "                result, best_specificity = server_item, specificity\n")]},
+    {"name": "private-method-comparison-ties-replace", "expect": "R17.2", "edits": [(A, _REPL, "            if self._outranks(quality, specificity, best_quality, best_specificity):\n"), (A, "    @property\n    def best(self)", "    def _outranks(self, q, s, bq, bs):\n        if q > bq:\n            return True\n        return s >= bs\n\n    @property\n    def best(self)")]},
+    {"name": "default-returned-even-when-chosen", "expect": "R17.2", "edits": [(A, "                best_specificity = specificity\n        return result\n", "                best_specificity = specificity\n        return default if result is not None else result\n")]},
+    {"name": "language-fallback-loop-forgets-q", "expect": "R17.2", "edits": [(A, _LANG_FALLBACK, "        primary = []\n        for tag, q in self:\n            primary.append((_locale_delim_re.split(tag, 1)[0], 1))\n        fallback = Accept(primary)\n")]},
+    {"name": "language-mapping-keeps-last-offer-per-tag", "expect": "R17.2", "edits": [(A, _LANG_STAGE3, "        by_primary = {_locale_delim_re.split(item, 1)[0]: item for item in matches}\n        result = super().best_match(list(by_primary))\n"), (A, _MAPBACK, "            return by_primary[result]")]},
+    {"name": "language-fallback-object-is-language-accept", "expect": "R17.2", "edits": [(A, "        fallback = Accept(\n            [(_locale_delim_re", "        fallback = LanguageAccept(\n            [(_locale_delim_re")]},
+    {"name": "charset-helper-compares-raw-range", "expect": "R17.4", "edits": [(A, _CHARSET_VM, '        return item == "*" or _same_charset(value, item)'), (A, "class CharsetAccept(Accept):", "def _same_charset(a, b):\n    return _normalize(a) == b\n\n\nclass CharsetAccept(Accept):")]},
+    {"name": "base-match-result-variable-loses-wildcard", "expect": "R17.4", "edits": [(A, _BASE_VM, '        matched = False\n        if item.lower() == value.lower():\n            matched = True\n        return matched')]},
+    {"name": "mime-helper-early-returns-lose-subtype-wildcard", "expect": "R17.4", "edits": [
+        (A, "        return (\n            (item_type == \"*\" and item_subtype == \"*\")\n            or (value_type == \"*\" and value_subtype == \"*\")\n        ) or (\n            item_type == value_type\n            and (\n                item_subtype == \"*\"\n                or value_subtype == \"*\"\n                or (item_subtype == value_subtype and item_params == value_params)\n            )\n        )",
+         "        if item_type == \"*\" or value_type == \"*\":\n            return True\n        if item_type != value_type:\n            return False\n        if value_subtype == \"*\":\n            return True\n        return item_subtype == value_subtype and item_params == value_params")]},
+    {"name": "mime-specificity-loop-inverted", "expect": "R17.3", "edits": [(A, _MIME_SPEC, '        out = []\n        for part in _mime_split_re.split(value):\n            out.append(part == "*")\n        return tuple(out)')]},
 ]
